@@ -296,12 +296,22 @@ def first_outcome_oracle(obs, x):
     return out
 
 
+BASE_KINDS = ('base', 'systemexit', 'generatorexit')
+
+
+def in_submission_step(rec):
+    """Was this fault raised inside the transfer's submission step (by the thread running it, or at a boundary only it reaches)?"""
+    return rec.get('stage') == 'submission' or any(s in rec['key'] for s in ('/s3:HeadObject', '/cb:on_queued', '/fs:size'))
+
+
 def outcome_oracle(obs, x):
     out = []
     mech = base_mech(obs, x)
     counted, mine = counted_faults(obs, x)
-    # mechanism field: a BaseException (not an Exception) was raised into request-stage work of this transfer
-    mech['base_exception_fault'] = any(r['kind'] == 'base' for r in mine)
+    # mechanism fields: a BaseException (not an Exception) was raised into request-stage work of this transfer / into its
+    # submission step (the size query, on_queued, whatever the submission thread itself does)
+    mech['base_exception_fault'] = any(r['kind'] in BASE_KINDS and not in_submission_step(r) for r in mine)
+    mech['base_exception_in_submission'] = any(r['kind'] in BASE_KINDS and in_submission_step(r) for r in mine)
     mech['executor'] = obs.spec.get('executor', 'threaded')
     cancelled = cancel_issued_before_done(obs, x)
     if x.outcome is None:
